@@ -181,6 +181,7 @@ impl<Hd: TokP, El: TokP> Engine for CtorEngine<Hd, El> {
         // spare capacity: small, about the length, or more than twice the length
         let spare = match c.p(2) % 4 { 0 => 0, 1 => pick(c.p(2), 20), 2 => len + pick(c.p(2), 9), _ => 2 * len + 1 + pick(c.p(2), 40) };
         let what = format!("{} with {} elements of {} (spare capacity {}, header {})", CTORS[ctor], len, El::tyname(), spare, Hd::tyname());
+        rt::run::trace_stream(&what);
         let (items, ids) = toks::<El>(len, 1000);
         let (hdr, hid) = {
             let h = Hd::make(7);
@@ -337,6 +338,7 @@ fn copy_case<T: Copy + PartialEq + std::fmt::Debug + Send + Sync + 'static>(what
     let items: Vec<T> = (0..len).map(|i| mk((i as u32).wrapping_mul(2654435761).wrapping_add(c.p(2) as u32))).collect();
     let which = pick(c.p(3), 3);
     *what = format!("{} over {} x {}", ["Arc::from_header_and_slice", "ThinArc::from_header_and_slice", "Arc::<[T]>::from(&[T])"][which], len, tname);
+    rt::run::trace_stream(&what);
     let hdr = (c.p(4), c.p(5) as u32);
     let cmp = |got: &[T]| {
         if got.len() != items.len() || got.iter().zip(items.iter()).any(|(a, b)| !bits_eq(a, b)) {
@@ -400,6 +402,7 @@ impl Engine for CopyCtorEngine {
                 let s: String = c.ops.iter().flat_map(|o| o.iter()).map(|b| ['a', 'é', '漢', '🦀', ' ', 'Z', '\u{0}', 'ß'][(*b % 8) as usize]).collect();
                 let which = pick(c.p(3), 3);
                 what = format!("{} over a {}-byte string", ["Arc::<str>::from(&str)", "Arc::<str>::from(String)", "Arc::from_header_and_str"][which], s.len());
+                rt::run::trace_stream(&what);
                 labels.push("str");
                 match which {
                     0 => {
@@ -496,6 +499,7 @@ impl<Hd: TokP, El: TokP> FaultEngine<Hd, El> {
         // how many callbacks would a fault-free run make? run the same constructor un-armed on a twin
         let k = c.p(7) as i64 % 24; // 0 = no panic
         *what = format!("{} over {} items, len()/size_hint() offsets {:?}, hint mode {}, panic at callback {}", FAULT_APIS[api], len, lies, hint_mode, k);
+        rt::run::trace_stream(&what);
         let it = GenIter { items: items.into(), hint_mode, lies, asks: 0, yielded: 0 };
         reset_len_asks();
         tok::panic_at(k);
@@ -610,6 +614,7 @@ impl<Hd: TokP, El: TokP> FaultEngine<Hd, El> {
         let shared = c.p(1) & 1 == 1;
         let k = 1 + (c.p(2) % 3) as i64; // first, second or third callback (the third usually does not exist: control)
         *what = format!("{} with the handle {} and a panic armed at callback {}", FAULT_APIS[api], if shared { "shared (2 owners)" } else { "unique" }, k);
+        rt::run::trace_stream(&what);
         let v = El::make(300);
         let id = v.peekp().id;
         let mut a: Arc<El> = lib!(Arc::new(v));
@@ -843,6 +848,7 @@ impl<Hd: TokP, El: TokP> Engine for FaultEngine<Hd, El> {
                 let fresh = lib!(Arc::protected_from_thin(ThinArc::from_header_and_iter(Hd::make(2), vec![El::make(3)].into_iter())));
                 let after = c.p(1) & 1 == 1;
                 what = format!("ThinArc::with_arc_mut: panic {} replacing the Arc", if after { "after" } else { "before" });
+                rt::run::trace_stream(&what);
                 let mut f = Some(fresh);
                 let r = catch_unwind(AssertUnwindSafe(|| {
                     lib!(t.with_arc_mut(|a| {
@@ -966,6 +972,7 @@ impl Engine for AllocFailEngine {
         let k = c.p(1) as i64 % 5; // 0 = control (no failure)
         let o = child::run_self(&["child".into(), "c07alloc".into(), ctor.to_string(), k.to_string()], &[], Duration::from_secs(20));
         let what = format!("{} with allocation #{} inside the call failing", ALLOC_CTORS[ctor], k);
+        rt::run::trace_stream(&what);
         let survived = o.stdout.lines().find(|l| l.starts_with("SURVIVED")).map(|s| s.to_string());
         let allocs: Option<i64> = survived.as_ref().and_then(|s| s.split("allocs=").nth(1)).and_then(|x| x.trim().parse().ok());
         let aborted_cleanly = o.signal == Some(6) && o.stderr.contains("memory allocation of");
@@ -1128,6 +1135,7 @@ impl Engine for OverflowEngine {
         let len = ovf_len(c.p(1) as usize, (c.p(2) % 5) as usize, OVF_SIZES[api]);
         let o = child::run_self(&["child".into(), "c05ovf".into(), api.to_string(), len.to_string()], &[], Duration::from_secs(20));
         let what = format!("{} with length {:#x}", OVF_APIS[api], len);
+        rt::run::trace_stream(&what);
         let need: u128 = 8 + OVF_HDR[api] + (len as u128) * OVF_SIZES[api];
         let caught = o.stdout.contains("CAUGHT") && o.code == Some(3);
         let alloc_err = o.signal == Some(6) && o.stderr.contains("memory allocation of");
